@@ -8,7 +8,7 @@ PROP = {
     "obligations": ["no_shared_writes"],
     # a round = one child process with N goroutines at a given GOMAXPROCS; 10 shards keep at most ~10 children alive
     "streams": [{"name": "conc", "shards": 10}],
-    "rule": "conc: rounds over N in {2,4,8,16,32} goroutines x GOMAXPROCS in {1,2,4,16} (quick: 80 rounds, thorough: 800), each "
+    "rule": "conc: rounds over N in {2,4,8,16,32} goroutines x GOMAXPROCS in {1,2,4,16} (quick: 60 rounds, thorough: 500), each "
             "sharing ONE engine (custom filter/tag/block registered, include cache filled, strict variables in every 5th "
             "round), ONE set of parsed templates (36 fixed templates covering every standard tag and all 48 standard "
             "filters, error paths included, + 12 random loop/cycle templates) and ONE bindings map (scalars, caller-owned "
